@@ -24,39 +24,38 @@
    property that fails is named.                                                         *)
 EXTENDS Store, TraceIO
 
-RECURSIVE Walk(_, _, _, _, _)
-Walk(r, exp, i, st, go) ==
+RECURSIVE Walk(_, _, _, _, _, _)
+Walk(r, exp, cov, i, st, go) ==
   IF i > Len(r.ev) THEN FinalBad(exp, r.lm, st, r.final)
   ELSE LET e == r.ev[i] IN
-    CASE e.a = "compute"  -> Walk(r, exp, i + 1, st, TRUE)
+    CASE e.a = "compute"  -> Walk(r, exp, cov, i + 1, st, TRUE)
       [] e.a = "return"   -> IF ~r.lazy /\ ~CompleteIn(exp, st) THEN {"StoredOnReturn"}
-                             ELSE Walk(r, exp, i + 1, st, go)
+                             ELSE Walk(r, exp, cov, i + 1, st, go)
       [] e.a = "computed" -> IF ~CompleteIn(exp, st) THEN {"StoredOnCompute"}
-                             ELSE Walk(r, exp, i + 1, st, go)
+                             ELSE Walk(r, exp, cov, i + 1, st, go)
       [] e.a = "acq"      -> IF ~CanAcquire(st) THEN {"LockFree"}
-                             ELSE Walk(r, exp, i + 1, DoAcquire(st, e.who), go)
+                             ELSE Walk(r, exp, cov, i + 1, DoAcquire(st, e.who), go)
       [] e.a = "rel"      -> IF ~CanRelease(st, e.who) THEN {"ReleaseByHolder"}
-                             ELSE Walk(r, exp, i + 1, DoRelease(st), go)
+                             ELSE Walk(r, exp, cov, i + 1, DoRelease(st), go)
       [] e.a = "wb"       -> LET w   == [who |-> e.who, t |-> e.t, pos |-> e.pos, val |-> e.val]
-                                 bad == WriteBeginBad(exp, r.lm, st, w)
+                                 bad == WriteBeginBad(exp, cov, r.lm, st, w)
                                         \cup Cl("NothingBeforeCompute", go)
                                         \cup Cl("MalformedTrace", InFlight(st, e.who) = {})
-                             IN IF bad # {} THEN bad ELSE Walk(r, exp, i + 1, DoWriteBegin(st, w), go)
+                             IN IF bad # {} THEN bad ELSE Walk(r, exp, cov, i + 1, DoWriteBegin(st, w), go)
       [] e.a = "we"       -> LET fs == InFlight(st, e.who)
                              IN IF fs = {} THEN {"MalformedTrace"}
-                                ELSE Walk(r, exp, i + 1, DoWriteEnd(st, CHOOSE f \in fs : TRUE), go)
+                                ELSE Walk(r, exp, cov, i + 1, DoWriteEnd(st, CHOOSE f \in fs : TRUE), go)
       [] e.a = "rd"       -> LET bad == ReadBad(exp, st, [t |-> e.t, pos |-> e.pos, val |-> e.val])
-                             IN IF bad # {} THEN bad ELSE Walk(r, exp, i + 1, st, go)
+                             IN IF bad # {} THEN bad ELSE Walk(r, exp, cov, i + 1, st, go)
       [] OTHER            -> {"MalformedTrace"}
 
-SourceCells(call, q) == [j \in 1..Size(call.src[q].shape) |-> Base(call, q) + j]
 
 StoreBad(r) ==
   IF r.raised # "" THEN {"UnexpectedRaise"}
   ELSE IF ~WellFormed(r.call) THEN {"MalformedTrace"}
   ELSE LET ex == TLCEval(ExpectedAll(r.call))      \* evaluated once per record
            w  == IF r.obs = "final" THEN Cl("FinalContent", r.final = ex)
-                 ELSE Walk(r, ex, 1, TLCEval(S0(r.call)), ~r.lazy)
+                 ELSE Walk(r, ex, TLCEval(CoverAll(r.call)), 1, TLCEval(S0(r.call)), ~r.lazy)
        IN IF w # {} THEN w
           ELSE Cl("ReturnedContent", r.ret => r.retc = [q \in 1..NSrc(r.call) |-> SourceCells(r.call, q)])
 
